@@ -362,7 +362,8 @@ func ValidateRequestBody(ctx context.Context, input *RequestValidationInput, req
 		}
 	}
 
-	if defaultsSet {
+	if defaultsSet && RegisteredBodyEncoder(mediaType) != nil {
+		// Without an encoder for the media type the defaults cannot be written back: the body stays as received.
 		// not assigned to data: on failure the GetBody installed above must keep the body that was read
 		encoded, err := encodeBody(value, mediaType)
 		if err != nil {
